@@ -32,8 +32,28 @@ sumSizes (mapping_t * m, mapping_node_t * elt, void *tp)
   return 0;
 }
 
+static int svalue_size_1 (svalue_t *);
+
+/* Arrays and mappings may contain themselves: stop following references at a fixed depth
+ * instead of recursing until the C stack is exhausted. */
+#define SVALUE_SIZE_MAX_DEPTH	64
+
 static int
 svalue_size (svalue_t * v)
+{
+  static int depth = 0;
+  int total;
+
+  if (depth >= SVALUE_SIZE_MAX_DEPTH)
+    return 0;
+  depth++;
+  total = svalue_size_1 (v);
+  depth--;
+  return total;
+}
+
+static int
+svalue_size_1 (svalue_t * v)
 {
   int i, total;
 
